@@ -33,7 +33,7 @@ Usage: test_rdr.py [--seed N] [--quick] [--random N] [--model EXE] [--show N]
                    [--leaks] [--dump-mismatches FILE]
 Exit 0: exact agreement on every case.  Exit 1: a mismatch.
 """
-import os, sys, time, random, argparse, itertools, subprocess, collections, struct
+import os, sys, time, random, argparse, itertools, subprocess, collections, struct, re, hashlib
 import common, seeds
 import lhabuild as lb
 from common import CBuild, CDIR, run_lines_parallel
@@ -690,6 +690,11 @@ def main():
     ap.add_argument("--dump-mismatches", default=None)
     ap.add_argument("--coverage", action="store_true", help="print how often each op met each kind of entry")
     ap.add_argument("--family", default=None, help="only the families whose name starts with this")
+    ap.add_argument("--mem", action="store_true",
+                    help="additionally compare the allocator's live block count after every op (driver built with "
+                         "-DLHASA_VERIF and harness/c/verif_alloc.c) with the ledger coq/ReaderMem.v (model command rdrmem)")
+    ap.add_argument("--failinj", type=int, default=0,
+                    help="C only: for N protocol-respecting cases fail each allocation request in turn")
     ap.add_argument("--leaks", action="store_true",
                     help="additionally run the C side alone, unprivileged (no chroot) under LeakSanitizer")
     a = ap.parse_args()
@@ -789,6 +794,14 @@ def main():
                 for l, c in ALLCRASH:
                     f.write(l + "\n")
         orc.report()
+        if a.mem or a.failinj:
+            drvm = [cb.compile("drv_rdr_mem", [os.path.join(CDIR, "drv_rdr.c")] + cb.lib_sources() + common.alloc_sources(),
+                               extra=["-I" + CDIR, "-DLHASA_VERIF"], sanitize=True, libs=common.WRAP)]
+            if a.mem:
+                nbad = mem_run(drvm, fam, model, a.show, a.dump_mismatches)
+                bad += nbad
+            if a.failinj:
+                failinj_run(drvm, fam, a.failinj, a.dump_mismatches)
         if a.leaks:
             leak_run(cb, drv, fam, model, dump=a.dump_mismatches)
         print("compared %d cases: %s  (%.1fs)" % (total, "all agree" if bad == 0 else "%d MISMATCHES" % bad,
@@ -796,6 +809,119 @@ def main():
         return 0 if bad == 0 else 1
     finally:
         cb.close()
+
+
+def protocol_ok(line):
+    """the op sequence respects property C20's protocol: per entry at most one decode operation (reads in
+    any piece sizes, or one check, or one extract -- further reads after it are harmless and allowed)"""
+    ops = line.split()[5]
+    first = True          # no decode operation yet for the current entry
+    for op in ([] if ops == "-" else ops.split(",")):
+        if op == "n":
+            first = True
+        elif op[0] == "r":
+            first = False
+        else:
+            if not first:
+                return False
+            first = False
+    return True
+
+
+ALLOC_RE = re.compile(r" ALLOC req=(\d+) live=(\d+) bytes=\d+ peak=\d+ files=(\d+) failed=(\d+)")
+FINAL_RE = re.compile(r" final=(\d+) files=(\d+)")
+
+
+def mem_run(drvm, fam, model, show, dump):
+    """C (accounting allocator) against the ledger: the lb= value after every op and after lha_reader_free, the
+    live blocks and open files after the stream has been freed"""
+    nbad = 0
+    leaks_in_protocol = []
+    for name, lines in fam.items():
+        cout = run_lines_parallel(drvm, lines)
+        mout = run_lines_parallel([model], ["rdrmem" + l[3:] for l in lines])
+        cnt = collections.Counter()
+        mism = []
+        for l, c, m in zip(lines, cout, mout):
+            ca, ma = ALLOC_RE.search(c), FINAL_RE.search(m)
+            proto = protocol_ok(l)
+            if ca and proto and (ca.group(2) != "0" or ca.group(3) != "0"):
+                leaks_in_protocol.append((l, c))
+            if "FAULT" in m or "OUTOFFUEL" in m:
+                # the concrete model (1411/1414: an entry linked twice) or the ledger (15xx: a released
+                # header freed or used, a freed decoder freed) stopped: the ops before must still agree
+                site = m[m.rindex("FAULT"):] if "FAULT" in m else "OUTOFFUEL"
+                cnt["model stopped: " + site + (" (within the protocol!)" if proto else "")] += 1
+                if not ALLOC_RE.sub("", c).startswith(m[:m.rindex(site)]) or proto:
+                    mism.append((l, c, m))
+                continue
+            if "CHILD-FAILED" in c or ca is None or ma is None:
+                cnt["C crashed" if "CHILD-FAILED" in c else "unparsable"] += 1
+                mism.append((l, c, m))
+                continue
+            same = ALLOC_RE.sub("", c) == FINAL_RE.sub("", m) and ca.group(2) == ma.group(1) and ca.group(3) == ma.group(2)
+            cnt["agree" + (", leak predicted and observed" if same and ca.group(2) != "0" else "")] += same
+            if not same:
+                cnt["DISAGREE"] += 1
+                mism.append((l, c, m))
+        print("mem %-22s %6d cases (%d within the protocol): %s" % (
+            name, len(lines), sum(1 for l in lines if protocol_ok(l)),
+            ", ".join("%s %d" % kv for kv in sorted(cnt.items()))))
+        nbad += len(mism)
+        for l, c, m in mism[:show]:
+            t = l.split()
+            i, cc, mm = first_diff(ALLOC_RE.sub("", c), FINAL_RE.sub("", m))
+            print("  case : %s %s ops=%s  archive %d bytes" % (t[1], t[2], t[5], len(t[4]) // 2))
+            print("  C    : ... " + cc + "   " + (ALLOC_RE.search(c).group(0) if ALLOC_RE.search(c) else ""))
+            print("  model: ... " + mm + "   " + (FINAL_RE.search(m).group(0) if FINAL_RE.search(m) else ""))
+        if dump and mism:
+            with open("%s.mem.%s" % (dump, name.split("(")[0]), "w") as f:
+                for l, c, m in mism:
+                    f.write(l + "\n#C " + c + "\n#M " + m + "\n")
+    leaks_in_protocol.sort(key=lambda lc: len(lc[0]))
+    print("mem: C leaks (live != 0 or files != 0 at exit) within the protocol: %d" % len(leaks_in_protocol))
+    for l, c in leaks_in_protocol[:3]:
+        print("   " + l[:2000] + "   " + ALLOC_RE.search(c).group(0))
+    return nbad + len(leaks_in_protocol)
+
+
+def failinj_run(drvm, fam, n, dump):
+    """C only: every allocation request of a case fails in turn (the 4th field of the case line is the index
+    of the failing request).  Reported: crashes, and blocks or files still held at exit."""
+    cands = [l for name, ls in fam.items() if not name.startswith("random-abuse") for l in ls if protocol_ok(l)]
+    cands.sort(key=lambda l: (len(l.split()[4]) > 4000, hashlib.md5(l.encode()).hexdigest()))
+    cands = cands[:n]
+    base = run_lines_parallel(drvm, cands)
+    lines = []
+    for l, c in zip(cands, base):
+        ma = ALLOC_RE.search(c)
+        if not ma:
+            continue
+        t = l.split()
+        for k in range(1, int(ma.group(1)) + 1):
+            lines.append(" ".join(t[:3] + [str(k)] + t[4:]))
+    out = run_lines_parallel(drvm, lines)
+    crash, held, nofail = [], [], 0
+    for l, c in zip(lines, out):
+        ma = ALLOC_RE.search(c)
+        if "CHILD-FAILED" in c or ma is None:
+            crash.append((l, c))
+        elif ma.group(2) != "0" or ma.group(3) != "0":
+            held.append((l, c))
+        elif ma.group(4) == "0":
+            nofail += 1
+    print("failinj: %d cases, %d runs (one per allocation request); %d crashed, %d held blocks or files at exit, "
+          "%d never reached the failing request" % (len(cands), len(lines), len(crash), len(held), nofail))
+    for what, ls in (("crash", crash), ("held", held)):
+        ls.sort(key=lambda lc: len(lc[0]))
+        for l, c in ls[:4]:
+            t = l.split()
+            print("   %s: rdr %s %s %s <%d bytes> %s   %s" % (what, t[1], t[2], t[3], len(t[4]) // 2, t[5],
+                                                          (ALLOC_RE.search(c).group(0) if ALLOC_RE.search(c) else c[-120:])))
+            print("   " + l[:1500])
+        if dump and ls:
+            with open("%s.failinj.%s" % (dump, what), "w") as f:
+                f.write("".join(l + "\n" for l, c in ls))
 
 
 def leak_run(cb, drv, fam, model, limit=3000, dump=None):
